@@ -43,7 +43,7 @@ func genData(r *rand.Rand, fed *federation, o dataOpts) *dataGraph {
 		n := 2 + r.Intn(3)
 		perm := r.Perm(len(idPool))
 		if tn == o.bigType {
-			n = 55 + r.Intn(16)
+			n = []int{50, 100, 55 + r.Intn(16), 55 + r.Intn(16)}[r.Intn(4)] // incl. exact multiples of the batch size
 		}
 		for i := 0; i < n; i++ {
 			id := fmt.Sprint(i + 1)
